@@ -2,6 +2,7 @@
 namespace Larking.Expected.C02
 
 def conds_variable_index : List String := [
+   "func (*variable) index(toks tokens) int",
    "range v.toks",
    "if i == n",
    "return -1",
@@ -21,6 +22,7 @@ def conds_variable_index : List String := [
   ]
 
 def conds_path_search : List String := [
+   "func (*path) search(toks tokens, verb string) (*method, params, error)",
    "if n := len(toks); n <= 1",
    "if m, ok := p.methods[verb]; ok",
    "return m, nil, nil",
@@ -42,18 +44,21 @@ def conds_path_search : List String := [
   ]
 
 def conds_path_addVariable : List String := [
+   "func (*path) addVariable(toks tokens) *variable",
    "if v, ok := p.findVariable(name); ok",
    "return v",
    "return v"
   ]
 
 def conds_path_addPath : List String := [
+   "func (*path) addPath(parent, value token) *path",
    "if next, ok := p.segments[val]; ok",
    "return next",
    "return next"
   ]
 
 def conds_lexTemplate : List String := [
+   "func lexTemplate(l *lexer) error",
    "if r := l.next(); r != '/'",
    "return l.errUnexpected()",
    "if err := l.emit(tokenSlash); err != nil",
@@ -74,6 +79,7 @@ def conds_lexTemplate : List String := [
   ]
 
 def conds_lexSegments : List String := [
+   "func lexSegments(l *lexer) error",
    "for",
    "if err := lexSegment(l); err != nil",
    "return err",
@@ -84,6 +90,7 @@ def conds_lexSegments : List String := [
   ]
 
 def conds_lexSegment : List String := [
+   "func lexSegment(l *lexer) error",
    "switch",
    "case unicode.IsLetter(r)",
    "return lexLiteral(l)",
@@ -98,6 +105,7 @@ def conds_lexSegment : List String := [
   ]
 
 def conds_lexVariable : List String := [
+   "func lexVariable(l *lexer) error",
    "if r != '{'",
    "return l.errUnexpected()",
    "if err := l.emit(tokenVariableStart); err != nil",
@@ -115,6 +123,7 @@ def conds_lexVariable : List String := [
   ]
 
 def conds_lexFieldPath : List String := [
+   "func lexFieldPath(l *lexer) error",
    "if err := lexIdent(l); err != nil",
    "return err",
    "for",
@@ -127,6 +136,7 @@ def conds_lexFieldPath : List String := [
   ]
 
 def conds_lexVerb : List String := [
+   "func lexVerb(l *lexer) error",
    "if err := lexLiteral(l); err != nil",
    "return err",
    "if r := l.next(); r == eof",
@@ -135,26 +145,31 @@ def conds_lexVerb : List String := [
   ]
 
 def conds_lexIdent : List String := [
+   "func lexIdent(l *lexer) error",
    "if i := l.acceptRun(isIdent); i == 0",
    "return l.errShort()",
    "return l.emit(tokenIdent)"
   ]
 
 def conds_lexLiteral : List String := [
+   "func lexLiteral(l *lexer) error",
    "if i := l.acceptRun(isLiteral); i == 0",
    "return l.errShort()",
    "return l.emit(tokenLiteral)"
   ]
 
 def conds_isIdent : List String := [
+   "func isIdent(r rune) bool",
    "return unicode.IsLetter(r) || unicode.IsNumber(r) || r == '_' || r == '-'"
   ]
 
 def conds_isLiteral : List String := [
+   "func isLiteral(r rune) bool",
    "return isIdent(r) || r == '.'"
   ]
 
 def conds_isPath : List String := [
+   "func isPath(r rune) bool",
    "return isLiteral(r) || r == '~' || r == '!' || r == '$' || r == '&' || r == '\\'' || r == '(' || r == ')' || r == '*' || r == '+' || r == ',' || r == ';' || r == '=' || r == '@'"
   ]
 
